@@ -1233,6 +1233,17 @@ def _conditional_callee(fn: ast.FunctionDef) -> int:
     return done
 
 
+def _plain_local_annotations(fn: ast.FunctionDef) -> int:
+    """`x: T = v` on a local name inside a function is `x = v` (the annotation of a local is not evaluated)."""
+    done = 0
+    for body in _bodies(fn):
+        for i, st in enumerate(body):
+            if isinstance(st, ast.AnnAssign) and isinstance(st.target, ast.Name) and st.value is not None and st.simple:
+                body[i] = ast.copy_location(ast.Assign(targets=[st.target], value=st.value), st)
+                done += 1
+    return done
+
+
 def apply(tree: ast.Module, module: str = "") -> list[str]:
     """Dissolve transparent helpers of `tree` into their callers (in place). -> names inlined (one per call site)."""
     if _has_walrus(tree):
@@ -1248,6 +1259,7 @@ def apply(tree: ast.Module, module: str = "") -> list[str]:
     for n in ast.walk(tree):
         if isinstance(n, ast.FunctionDef):
             aliases += _coalesce_result_copies(n)
+            aliases += _plain_local_annotations(n)
             aliases += _fold_dict_stores(n)
             aliases += _splat_literal_dicts(n)
             aliases += _iterator_temporaries(n)
